@@ -79,6 +79,14 @@ def reuse_case(rng: Rng):
     for i in range(n_hist):
         hc = Cfg.from_json(c.to_json())
         hc.put_mode, hc.put_closure = rng.choice("-AU"), rng.choice("-01")
+        if rng.chance(0.4):
+            # the earlier request names the same entity with an id field of another width: its PDU headers
+            # (and everything derived from their length) differ from the follow-up's
+            hc.put_did = f"{c.did.split('/')[0]}/{rng.choice((1, 2, 4, 8))}"
+            # (not the configuration of the listed finding C07:segment-length-not-positive — a derived segment
+            # length of exactly 0 — whose empty File Data PDUs cannot be encoded)
+            if int(c.did.split('/')[0]) >= 256 ** int(hc.put_did.split('/')[1]) or hc.seg_len == 0:
+                hc.put_did = ""
         if same_path:
             hc.src_path, hc.dst_path, hc.data = T_SRC, T_DST, hdata
             hc.dirs_d, hc.dfiles, hc.metadata_only = (), (), False
@@ -133,8 +141,22 @@ def reuse_case(rng: Rng):
     fresh = absolute_fs(lf.sess.ops, lf.sess.out, T_DST,
                         None if left_over is None else {"D": left_over.hex() or "-"})[fa:fb]
     fails = o.Fails()
-    A = norm(reused, T_DST, first_seq, c.seqbits)
-    B = norm(fresh, T_DST, first_seq, c.seqbits)
+
+    def own_seq(lines, default):
+        """the sequence number the follow-up actually got (a transaction start that raised after drawing a
+        number — segment length not derivable — consumed numbers without announcing a transaction: "up to
+        the transaction sequence number")"""
+        for l in lines:
+            m = re.search(r" \| ind=tx\(\d+/\d+:(\d+)/\d", l)
+            if m:
+                return int(m.group(1))
+        return default
+    A = norm(reused, T_DST, own_seq(reused, first_seq), c.seqbits)
+    B = norm(fresh, T_DST, own_seq(fresh, first_seq), c.seqbits)
+    # the scripts carry the PDUs that were delivered: compared with the sequence number renamed, too
+    raw_reused_ops, raw_fresh_ops = reused_ops, fresh_ops
+    reused_ops = norm(reused_ops, T_DST, own_seq(reused, first_seq), c.seqbits)
+    fresh_ops = norm(fresh_ops, T_DST, own_seq(fresh, first_seq), c.seqbits)
     # the clock differs: tick lines print absolute time
     A = [re.sub(r"^ok now=\d+", "ok now=*", x) for x in A]
     B = [re.sub(r"^ok now=\d+", "ok now=*", x) for x in B]
@@ -148,7 +170,7 @@ def reuse_case(rng: Rng):
         fails.add(f"C11:reused-differs-from-fresh:{step}",
                   {"at": i, "reused": A[i][:300] if i < len(A) else None, "fresh": B[i][:300] if i < len(B) else None,
                    "op": reused_ops[i][:200] if i < len(reused_ops) else None,
-                   "fresh_header": fresh_header, "fresh_ops": fresh_ops[:i + 1]}, a + i)
+                   "fresh_header": fresh_header, "fresh_ops": raw_fresh_ops[:i + 1]}, a + i)
     lf.close()
     return s, fails, tc, {"history_transactions": n_hist, "first_seq": first_seq}
 
